@@ -27,6 +27,7 @@ import pynenc.core_tasks as ct
 import pynenc.orchestrator.sqlite_orchestrator as so, pynenc.orchestrator.mem_orchestrator as mo
 import pynenc.orchestrator.base_orchestrator as bo
 import pynenc.broker.sqlite_broker as sb
+import pynenc.runner.persistent_process_runner as pprm
 standins.install_sync_history()
 CLOCK = standins.CounterClock(1_700_000_000.0)
 standins.patch_clock(CLOCK, mo, so)
@@ -34,6 +35,10 @@ LAST_DETAIL = None
 TOLERATE = set(__TOLERATE__)
 BODY = {"runs": 0, "mode": "ok"}
 FINISH = []
+
+def free_task(x: int = 0) -> int:
+    BODY["free_runs"] = BODY.get("free_runs", 0) + 1
+    return x
 
 def work(x: int = 0) -> int:
     BODY["runs"] += 1
@@ -60,7 +65,22 @@ def install():
     for nm in TASKS:
         setattr(HOLDER, nm, staticmethod(getattr(ct, nm).func))
     coop.yieldify(HOLDER, TASKS, all_names=ALL, gen_names=GEN)
+    # the persistent-process worker's main function (its signal handling is replaced by a no-op stand-in)
+    class _NoSignal:
+        SIGTERM = 15; SIG_IGN = 1
+        @staticmethod
+        def signal(*a, **k): return None
+    pprm.signal = _NoSignal
+    coop.yieldify(pprm, ["persistent_process_main"], all_names=ALL, gen_names=GEN)
 install()
+
+class StopAfter:
+    """stop_event stand-in: lets the worker loop run `n` iterations"""
+    def __init__(self, n): self.n = n; self.calls = 0
+    def is_set(self):
+        self.calls += 1
+        return self.calls > self.n
+    def set(self): self.n = 0
 
 def queue_list(app):
     out = []
@@ -78,8 +98,14 @@ def set_ts(app, iid, ts):
     with coop.coop_sqlite_connection(o.sqlite_db_path) as conn:
         conn.execute(f"UPDATE {o.tables.INVOCATIONS} SET status_timestamp=? WHERE invocation_id=?", (ts, iid)); conn.commit()
 
-def classify(app, ids, role):
+def classify(app, ids, role, crashed=True):
     """instant invariant: None if it holds, else a key naming the stranded state"""
+    k = _classify(app, ids, role)
+    if k is not None and not crashed:
+        k += ":without-any-crash"      # the fault-free run itself strands an invocation: never a listed crash window
+    return k
+
+def _classify(app, ids, role):
     o = app.orchestrator
     q = queue_list(app)
     for iid in ids:
@@ -133,7 +159,7 @@ def world(role, variant):
     BODY["runs"] = 0
     BODY["mode"] = "retry-once" if (role == "worker" and variant == 1) else "ok"
     opts = {"max_retries": 3}
-    if role == "cc-reroute":
+    if role in ("cc-reroute", "ppr-worker"):
         opts.update(running_concurrency=CC.TASK, reroute_on_concurrency_control=True)
     app = mk_app("sqlite", app_id="c03" + role.replace("-", ""), max_pending_seconds=30.0, runner_considered_dead_after_minutes=1.0, cached_status_time=0.0)
     task = app.task(**opts)(work); warm_task(task)
@@ -170,6 +196,18 @@ def crash_scenario(role, variant, k):
         o.set_invocation_status(first, St.RUNNING, B)      # a live runner holds the key
         FINISH.append((app.state_backend.get_invocation(first), B))
         gen = o.get_invocations_to_run__gen(1, A)
+    elif role == "ppr-worker":
+        # a live runner holds the key; the queue holds a blocked invocation of the guarded task and then (variant 1) a second one
+        invs = new_invocations(app, task, 2 + variant)
+        B = runner_ctx("survivor")
+        o.register_runner_heartbeats(["survivor"])
+        first = app.broker.retrieve_invocation()
+        o.set_invocation_status(first, St.PENDING, B)
+        o.set_invocation_status(first, St.RUNNING, B)
+        FINISH.append((app.state_backend.get_invocation(first), B))
+        ft = app.task(free_task); warm_task(ft)
+        invs = invs + new_invocations(app, ft, 1)      # a runnable invocation of another task queued BEHIND the blocked one(s)
+        gen = pprm.persistent_process_main__gen(app, runner_cache={}, stop_event=StopAfter(2), parent_runner_ctx_json=A.to_json(), child_runner_id="ppr-child-1")
     elif role == "stop":
         invs = new_invocations(app, task, 1)
         while app.broker.retrieve_invocation():
@@ -207,7 +245,7 @@ def crash_scenario(role, variant, k):
     if actor.error is not None and not actor.crashed:
         return ("C03:" + role + ":actor-raised:" + type(actor.error).__name__, [], BODY["runs"], ids, actor)
     # a claimed invocation that the (dead or finished) poller received is PENDING under it: nothing else to do here
-    key = classify(app, ids, role)
+    key = classify(app, ids, role, crashed=actor.crashed)
     left = drain(app, ids, FINISH[0] if FINISH else None)
     if FINISH:
         BODY["runs"] = max(BODY["runs"], 1) if not left else BODY["runs"]
@@ -234,7 +272,7 @@ def check(role, variant, k, only_key=None):
     return True
 '''
 
-ROLES = [("claim", 2), ("worker", 2), ("cc-reroute", 1), ("stop", 2), ("pending-recovery", 2), ("running-recovery", 2)]
+ROLES = [("claim", 2), ("worker", 2), ("cc-reroute", 1), ("ppr-worker", 2), ("stop", 2), ("pending-recovery", 2), ("running-recovery", 2)]
 
 F = r'''
 def crash___NAME__(variant: int, k: int) -> bool:
@@ -302,7 +340,7 @@ def run(ctx: Ctx) -> None:
                               "SQLiteOrchestrator._atomic_status_transition/increment_invocation_retries/recovery scans (statement level)", "SQLiteBroker.retrieve_invocation/route_invocation/send_message (statement level)",
                               "DistributedInvocation.run", "BaseRunner._kill_and_reroute", "core_tasks.recover_pending_invocations/recover_running_invocations"]
     ctx.bounds = {"crash": f"one hard crash after step k in 0..{kmax} (k beyond the end = fault-free run) of each actor role: runner claiming (1-2 queued), worker executing (success / retry path), "
-                           "reroute on concurrency control, kill-and-reroute on stop (PENDING / RUNNING), pending recovery task, running recovery task (1-2 invocations)",
+                           "reroute on concurrency control, the persistent-process worker main loop (two iterations over a queue with blocked entries), kill-and-reroute on stop (PENDING / RUNNING), pending recovery task, running recovery task (1-2 invocations)",
                   "after the crash": "instant invariant, then clock + 10000 s, both real recovery tasks and a surviving worker loop until quiescent (sequential)"}
     ctx.stubs += ["crash = the actor's generator is abandoned (no finally blocks), its SQLite connections rolled back and closed", "SQLite stack only (an in-memory backend dies with its process)",
                   "counter clock; PENDING ages forced through the status timestamp", "DummyRunner as app.runner"]
